@@ -170,6 +170,7 @@ Theorem s2s_spec st kk vv s :
 Proof.
   intros Hlen Hnd Hld Hsm. unfold s2s_load.
   destruct (N.eqb_spec (len kk) (len vv)) as [_|Hne]; [|unfold len in Hne; lia]. cbn [negb].
+  rewrite (no_large_of_small hash kk (proj1 Hld)).
   set (store := match s2s_store st with Some x => x | None => new_store end).
   destruct (store_load_spec store vv Hsm) as (store' & ids & Hsl & Hil & Hget).
   rewrite Hsl.
@@ -191,6 +192,18 @@ Theorem s2s_load_fail_noop st kk vv :
 Proof.
   intros H. unfold s2s_load. destruct (N.eqb_spec (len kk) (len vv)) as [He|_]; [|reflexivity].
   unfold len in He. lia.
+Qed.
+
+(* a load refused because a key is too large leaves the Str2Str as it was: the test is made before the
+   value store is replaced (since the repair of /repo) *)
+Theorem s2s_load_fail_noop_large st (kk vv : list bytes) :
+  length kk = length vv -> existsb (fun k : bytes => max_uint32 <? len k) kk = true ->
+  s2s_load hash sort st kk vv = (st, Err 2).
+Proof.
+  intros Hl E. unfold s2s_load.
+  assert (Heq : (len kk =? len vv) = true) by (apply N.eqb_eq; unfold len; lia).
+  rewrite Heq. cbn [negb].
+  match goal with |- (if ?c then _ else _) = _ => replace c with true by (symmetry; exact E) end. reflexivity.
 Qed.
 
 Theorem s2s_unloaded s : s2s_get hash new_s2s s = Ok None /\ s2s_len new_s2s = Ok 0.
